@@ -124,6 +124,13 @@ CHECKS = {
             "a WIF or private extended key, equal or contain a secret leaf of the unfiltered output, and every path/address/SEC/pub "
             "must be present, identical and in order; the raw CLI text is scanned too.",
             "DESIGN.md §4 C15", ""),
+    "C08": ("fault_enumeration", "E4 answers",
+            "exhaustive environment-answer enumeration: every single-bit answer of a scripted OS random source x entry points x lengths, PRNG states, call histories <=3",
+            "os.urandom / random._urandom / os.getrandom are replaced by one scripted logging source; for every entry point and all "
+            "five lengths every answer in {all-zero, all-one, e_b for each requested bit} is served: bytes requested must cover ENT, "
+            "the mnemonic must be a function of the answer only (three PRNG states, two processes), every entropy bit must take both "
+            "values, all results distinct, call histories must not carry state, and with the real source reseeding must not repeat.",
+            "DESIGN.md §4 C08", "statistical quality of the kernel CSPRNG is out of scope; sources bypassing the three patched functions would show as 'too few bytes requested'"),
 }
 
 NOT_YET = "check not built yet in this session (work in progress; see DESIGN.md §9 build order)"
